@@ -5,11 +5,27 @@ LEVEL = "proof"
 
 
 def run(ctx):
-    ctx.trusted += ["Coq 8.16.1 kernel", "hand-written kernel model coq/Model/Kernels.v + SimdApi.v (tied by correspondence A)",
+    ctx.trusted += ["Coq 8.16.1 kernel",
+                    "hand-written kernel model coq/Model/Kernels.v + SimdApi.v (tied by the translator: Gen/GenKernels.v = "
+                    "Model/Kernels.v, Props/C07Gen.v; and by correspondence A)",
+                    "tools/translate_kernels.py: the construct-by-construct mapping of the op_*.rs statement forms to "
+                    "while_lt / load_dense / load / read1 / write_dense / store / write1 / r_* / m_* (DESIGN)",
                     "harness/cfh (symbolic SimdRegister/Math instances), ocaml/driver_sym.ml, extraction (ExtrOcamlBasic only)"]
     ctx.assumptions += ["index arithmetic on nat: slices are at most isize::MAX bytes so i + 8L cannot wrap",
                         "the compiled code touches only what the source says (observed with guard pages in correspondence C, not proved)"]
     ctx.prove("Props/C07.v")
+    # Tie 1 (translator): regenerate Gen/GenKernels.v from the op_*.rs of lib.REPO, then re-check that the generated
+    # kernels ARE the model (19 equalities) and that the in-bounds theorem transports to them.  A function the
+    # translator cannot render is reported as `translator` breakage, a generated term that is no longer the model as
+    # `theorem` breakage (the failing lemma names the kernel).  Neither stops the run: correspondence A below runs the
+    # real code against the model and is what turns such a difference into a concrete failing input.
+    facts = ctx.translate(steps=("kernels",))
+    gk = (facts or {}).get("kernels") or {}
+    ctx.extra["generated_kernels"] = {"translated": gk.get("translated", []), "helpers": gk.get("helpers", []),
+                                      "untranslated": gk.get("untranslated", []), "ignored": gk.get("ignored", {}),
+                                      "files": gk.get("files", [])}
+    ok = ctx.prove("Props/C07Gen.v")
+    ctx.extra["generated_kernels"]["equal_to_model"] = bool(ok)
     symrun.run(ctx, configs=("stable",) if ctx.tier == "quick" else ("stable", "nightly"))
     from checks import exprun
     exprun.check_bounds(ctx)
